@@ -1030,6 +1030,13 @@ fn exec(case: &ParserCase, ctx: &mut Ctx) -> Res {
         let pre = cur.p;
         let r: &str = pre.remainder();
         let (pre_so, pre_eo) = (pre.start_offset(), pre.end_offset());
+        // A broken konst can leave a remainder that is not valid UTF-8 (cut inside a character). The
+        // C13 / C01 oracles report that at the step that produced it; when another property is being
+        // decided the history simply ends here - the reference functions (and this harness's own
+        // slicing) are not defined on such a string.
+        if std::str::from_utf8(r.as_bytes()).is_err() || str_offset_in(text, r).map(|o| !text.is_char_boundary(o) || !text.is_char_boundary(o + r.len())).unwrap_or(!r.is_empty()) {
+            return Ok(());
+        }
 
         // ---- fork / drop ------------------------------------------------------------
         match op {
